@@ -44,6 +44,17 @@ def run(prog, rep):
     rep.expect_min("C16.rng", 3)
     from .purity import row as _stateless_row
     rep.part(_stateless_row, prog, rep, "C16", 5)
+    # "its samples are the inverse-transformed samples of the base model", "cdf equals the empirical cdf of its own samples": the
+    # base model's sampler and density must describe one distribution - the wiring of every family's pdf / draw_sample, of the
+    # conditional forwarding and of the joint sampler is filed here too
+    from .shared import template_rows, conditional_rows
+    from vstat.report import Relabel
+    from . import c07
+    template_rows(prog, rep, "C16.base", ["pdf", "draw_sample"], 80)
+    conditional_rows(prog, rep, "C16.base-conditional", ["pdf", "draw_sample"], 5)
+    smp = Relabel(rep, "C16.base-sampler")
+    rep.part(c07.chain, prog, smp)
+    rep.expect_min("C16.base-sampler", 5)
 
 def _ret_tuple(prog, q):
     fn = prog.func(q)
